@@ -126,6 +126,12 @@ theorem src_appendShardKeyWithField_expected : src_appendShardKeyWithField = "{ 
 theorem storeIntersect_expected : ∀ s e a b : Int, OG.C11.storeIntersect s e a b = (!(decide (s > b) || decide (e < a))) := by
   intro s e a b; rfl
 
+/-! ### the hint path (OG.C11.Hint) -/
+
+theorem src_TargetShardsHintQuery_expected : src_TargetShardsHintQuery = "{ mst.SchemaLock.RLock() defer mst.SchemaLock.RUnlock() tagsGroup := getConditionTags(condition, mst.Schema) if len(tagsGroup) != 1 { return sgi.genShardInfosByIndex(aliveShardIdxes), nil } if opt.HintType == hybridqp.SpecificSeriesQuery { var tagCount int callback := func(k string, v int32) { if v == influx.Field_Type_Tag { tagCount++ } } mst.Schema.RangeTypCall(callback) if tagCount != len(*tagsGroup[0]) { return sgi.genShardInfosByIndex(aliveShardIdxes), nil } for i := 0; i < tagCount; i++ { if _, ok := mst.Schema.GetTyp((*tagsGroup[0])[i].Key); !ok { return sgi.genShardInfosByIndex(aliveShardIdxes), nil } } } return sgi.getShardsAndSeriesKeyForHintQuery(tagsGroup[0], aliveShardIdxes, mst, ski) }" := by rfl
+
+theorem src_getShardsAndSeriesKeyForHintQuery_expected : src_getShardsAndSeriesKeyForHintQuery = "{ shards := make([]ShardInfo, 0, len(sgi.Shards)) sort.Sort(tagsGroup) r := influx.Row{Name: mst.Name, Tags: *tagsGroup} r.UnmarshalIndexKeys(nil) if ski == nil || r.UnmarshalShardKeyByTag(ski.ShardKey) != nil { return sgi.genShardInfosByIndex(aliveShardIdxes), r.IndexKey } if sysconfig.GetEnableForceBroadcastQuery() == sysconfig.OnForceBroadcastQuery { return sgi.genShardInfosByIndex(aliveShardIdxes), r.IndexKey } var shard *ShardInfo if ski.Type == RANGE { shard = sgi.DestShard(string(r.ShardKey)) } else { if len(ski.ShardKey) > 0 { r.ShardKey = r.ShardKey[len(mst.Name)+1:] } var shardIdxes []int if mst.InitNumOfShards == 0 { shardIdxes = aliveShardIdxes } else { shardIdxes = mst.ShardIdexes[sgi.ID] } shard = sgi.ShardFor(HashID(r.ShardKey), shardIdxes) } if shard == nil { return sgi.genShardInfosByIndex(aliveShardIdxes), r.IndexKey } shards = append(shards, *shard) return shards, r.IndexKey }" := by rfl
+
 theorem maxConditionTagGroups_expected : maxConditionTagGroups = 1024 := by rfl
 
 theorem generation_ok : generationFailed = false := by rfl
